@@ -388,6 +388,20 @@ def k_rules(p: Project, rep: Report):
         else:
             rep.check("K-R2", f"request_profile:{lab}:temp-in-cache-directory", samedir, "the temporary file is not created next to the cache file (rename is only atomic within one file system)" if not samedir else "", loc(p, c))
         rep.check("K-R2", f"request_profile:{lab}:renamed-onto-cache", renamed, f"the temporary file is not renamed onto the cache path (os.replace) on every normal path after it was written" if not renamed else "", loc(p, c))
+    # the temporary file is complete (flushed and closed) before it takes the cache's name
+    from .source import parent as _parent
+
+    for n, c, (s_, d_) in replaces:
+        inside = None
+        par = _parent(c)
+        while par is not None and par is not fn:
+            if isinstance(par, ast.With):
+                for it in par.items:
+                    ce = it.context_expr
+                    if isinstance(ce, ast.Call) and _open_for_write(ce) is not None and text(_open_for_write(ce)) == text(s_):
+                        inside = par
+            par = _parent(par)
+        rep.check("K-R2", f"request_profile:{text(c.func)}:after-temp-file-closed", inside is None, "the rename onto the cache path happens inside the `with` block that still holds the temporary file open: its buffered content is not yet written, so a crash (or a concurrent reader) right after the rename sees an empty or truncated cache" if inside is not None else "", loc(p, c))
     for n, c, (s_, d_) in replaces:
         atomic = (dotted(c.func) or "") in ("os.replace", "os.rename") or (isinstance(c.func, ast.Attribute) and c.func.attr in ("replace", "rename") and not (dotted(c.func) or "").startswith("shutil"))
         rep.check("K-R2", f"request_profile:{text(c.func)}:atomic", atomic, "the move onto the cache path is not an atomic rename" if not atomic else "", loc(p, c))
